@@ -23,16 +23,16 @@ CLAIMED = {
          "H265 aggregation packets are assumed with the sum argument (listed); two AV1 obligations (an already stored packet is non-empty) are assumed; 'non-empty whenever the input is non-empty' is not decided"),
  "C09": ("static analysis: linear-inequality abstract interpretation + must-write dataflow + origin analysis",
          "no-panic obligations for Unmarshal/IsPartitionHead/IsPartitionTail of every rtp.Depacketizer and the deprecated AV1 path for any byte string and receiver state; per-packet decoders (VP8, VP9, H265, Opus) define every decoded field on every success path; carried buffers of the stateful depacketizers never alias an input",
-         "six obligations assumed (LEB128 value < 2^56, a relation lost by summarisation); result equality on reuse is decided through its cause"),
+         "the assumed obligations int(LEB128 value) >= 0 are backed by rule LEB.range (a k-octet encoding, k <= 12, is read back as a value below 2^63; derived from ReadLeb128's code in every run); result equality on reuse is decided through its cause"),
  "C17": ("static analysis: linear-inequality abstract interpretation + must-write dataflow",
          "Marshal/Unmarshal of the five fixed-size extension codecs never panic for any input length (all obligations proved) and every decoded field is defined on every success path (receiver-independent result)",
-         "bit-exact layout conformance is decided by the BITS rules (per_rule); the shortest accepted input of every codec equals its wire size (BOUNDS.minlen), so a length guard made stricter is reported as well as one made weaker"),
+         "bit-exact layout conformance is decided by the BITS rules (per_rule); the shortest accepted input of every codec equals its wire size (BOUNDS.minlen), so a length guard made stricter is reported as well as one made weaker; Marshal fails only for values outside the codec's range table (CTR.total) and returns exactly the wire size, 8 or 16 octets for abs-capture-time by the presence of the offset (CTR.size)"),
  "C19": ("static analysis: linear-inequality abstract interpretation + must-write dataflow",
          "VLA.Unmarshal never panics on any input (one assumed obligation about a copied slice header) and resets every decoded field; VLA.Marshal's validation dominates its table indexing; payload writes rely on the requiredLen sum invariant (assumed, listed)",
          "shortest accepted input (2 octets) is checked (BOUNDS.minlen); byte-exact conformance of the variable-length body and round-trip equality are not decided"),
  "C20": ("static analysis: flow-sensitive origin (alias) analysis",
          "every reference reachable from the value returned by Packet.Clone / Header.Clone is memory allocated inside Clone or nil, on every path (independence decided through its cause)",
-         "STRUCT.clone adds the necessary conditions of equality: every field written on every path (or nil in the original), from the same field, every fresh slice filled from the slice whose length it takes; byte equality itself is not decided"),
+         "STRUCT.clone adds the necessary conditions of equality: every field written on every path (or nil in the original), from the same field, every fresh slice filled from the slice whose length it takes; every copy() made by Clone has a destination exactly as long as its source (linear contract); byte equality itself is not decided"),
 }
 CLAIMED.update({k: tuple(v) for k, v in json.load(open('/verif/tools/claimed_extra.json')).items()})
 
